@@ -18,10 +18,14 @@ for sid in args:
     if subprocess.run(["git", "-C", "/repo", "diff", "--quiet"]).returncode != 0:
         print("/repo not clean"); sys.exit(2)
     subprocess.run(["git", "-C", "/repo", "apply", os.path.join(d, "patch.diff")], check=True)
+    ev = os.path.join(ROOT, "evidence", pid + ".json")
+    keep = open(ev).read() if os.path.exists(ev) else None   # evidence of a run on a broken tree must not replace the real one
     try:
         p = subprocess.run([os.path.join(ROOT, "check"), pid, "--tier", "quick"], stdout=subprocess.PIPE, stderr=subprocess.STDOUT, text=True, cwd=ROOT)
     finally:
         subprocess.run(["git", "-C", "/repo", "checkout", "--", "."])
+        if keep is not None:
+            open(ev, "w").write(keep)
     viol = [l for l in p.stdout.splitlines() if l.startswith("VIOLATION")]
     summ = [l for l in p.stdout.splitlines() if re.match(r"C\d+ (quick|thorough):", l)]
     m["recheck"] = {"verif_commit": head, "detected": bool(viol), "violation_line": viol[0] if viol else None, "summary_line": summ[-1] if summ else None}
